@@ -368,8 +368,8 @@ func propC08(c *Ctx) int {
 	off := int(c.Seed) % step
 	for doc, n := range LayoutDocSites {
 		for site := 0; site < n+2; site++ {
-			if site%step != off && n > 6 {
-				continue
+			if site%step != off && doc == 0 {
+				continue // quick tier: every 3rd site of the largest skeleton (seed-rotated); all sites of the others
 			}
 			j := base
 			j.Name, j.Fn, j.Params = fmt.Sprintf("trivia doc#%d site=%d +%dB", doc, site, k), "HLayoutTrivia", map[string]int64{"doc": int64(doc), "site": int64(site), "k": k}
